@@ -274,6 +274,15 @@ func oneRun(dir string, instance *metrics.Metrics, labels labelSpec, metricsOn b
 	}
 	// counts by result label, as summed by vlib.GatherCounts over whatever series exist
 	if metricsOn {
+		if o.MetS == o.SnapS && o.MetF == o.SnapF && o.MetD > o.SnapD && p.Shape.Mode != "users" && vlib.KnownOpen(knownStopDrain) {
+			// exactly the recorded open finding (see probeStopDrain): drops recorded by the trigger
+			// pool's stop path after the final totals were taken. Only consulted while the finding
+			// is listed as open; every other difference is still a violation.
+			stats.AddNote("excluded_known", 1)
+			vlib.ReportKnown(knownStopDrain)
+			o.Completed = false
+			return o, "", ""
+		}
 		if o.MetS != o.SnapS || o.MetF != o.SnapF || o.MetD != o.SnapD {
 			return o, fmt.Sprintf("%s: final result reports %d successful / %d failed / %d dropped (body: %d / %d), the iteration metric holds success=%d fail=%d dropped=%d",
 				where, o.SnapS, o.SnapF, o.SnapD, o.BodyPass, o.BodyFail, o.MetS, o.MetF, o.MetD), ""
@@ -293,6 +302,114 @@ func oneRun(dir string, instance *metrics.Metrics, labels labelSpec, metricsOn b
 		return o, fmt.Sprintf("%s: %s", where, d), ""
 	}
 	return o, "", ""
+}
+
+// ---- scripted probe: drops recorded by the pool's stop path vs. the final result -------------
+
+// knownStopDrain is the identifier under which the finding below would be listed in
+// /verif/known_findings.json if it is recorded as open instead of being repaired.
+const knownStopDrain = "F12-stop-drain-after-final-result"
+
+// probeStopDrain scripts the interleaving behind the sporadic "metric holds more dropped samples
+// than the final result reports": work still pending when the trigger pool stops is reported as
+// dropped by TriggerPool.stop(), which runs on a goroutine of its own that nothing waits for.
+// The gate parks that goroutine right after it raised the stop flag; the worker then finishes
+// its iteration and exits, the pool counts as complete and Do takes the final totals; only then
+// is the goroutine let through and records the drops (metric and progress) that the final
+// result no longer sees. On a tree where completion waits for the drain, Do simply does not
+// return before the gate is opened and both numbers agree.
+func probeStopDrain() (violation, infra string) {
+	labels := labelSpec{Keys: []string{"b", "a"}, Vals: []string{"vb", "va"}}
+	inst := metrics.NewInstance(prometheus.NewRegistry(), true, labels.build())
+	gate := vlib.NewGate("pool.stop.after_flag", 1, 10*time.Second)
+	drained := make(chan struct{}, 16)
+	remove := vlib.InstallGates(func(point string) {
+		if point == "pool.stop.done" {
+			drained <- struct{}{}
+		}
+	}, gate)
+	defer remove()
+
+	var ran atomic.Uint64
+	spec := &vlib.RunSpec{Mode: "constant", Flags: map[string]string{"rate": "5/20ms", "distribution": "none"}, WaitTimeout: 20 * time.Second, Metrics: inst}
+	spec.Opts.Concurrency = 1
+	spec.Opts.MaxDuration = 170 * time.Millisecond
+	spec.Opts.IgnoreDropped = true
+	spec.ScenarioFn = func(*f1testing.T) f1testing.RunFn {
+		return func(*f1testing.T) {
+			ran.Add(1)
+			time.Sleep(60 * time.Millisecond)
+		}
+	}
+	type doneT struct {
+		res *run.Result
+		err error
+	}
+	done := make(chan doneT, 1)
+	go func() {
+		res, err := executeNamed(spec, "probe")
+		done <- doneT{res, err}
+	}()
+	select {
+	case <-gate.Arrived():
+	case d := <-done:
+		return "", fmt.Sprintf("stop-drain probe: run ended before the pool's stop path was reached (err=%v)", d.err)
+	case <-time.After(30 * time.Second):
+		return "", "stop-drain probe: the pool's stop path was not reached within 30s"
+	}
+	// give Do the chance to finish while the drain is parked
+	var d doneT
+	returnedWhileParked := false
+	select {
+	case d = <-done:
+		returnedWhileParked = true
+	case <-time.After(1500 * time.Millisecond):
+	}
+	gate.Open()
+	if !returnedWhileParked {
+		select {
+		case d = <-done:
+		case <-time.After(40 * time.Second):
+			return "", "stop-drain probe: Do did not return within 40s after the gate was opened"
+		}
+	}
+	if d.err != nil {
+		return "", fmt.Sprintf("stop-drain probe: %v", d.err)
+	}
+	select {
+	case <-drained:
+	case <-time.After(20 * time.Second):
+		return "", "stop-drain probe: the pool's stop path did not finish within 20s"
+	}
+	snap := d.res.Snapshot()
+	mc, err := vlib.GatherCounts(inst)
+	if err != nil {
+		return "", fmt.Sprintf("stop-drain probe: gather: %v", err)
+	}
+	stats.Note("stop_drain_probe_do_returned_before_drain", returnedWhileParked)
+	if mc.Iteration["success"] != snap.SuccessfulIterationDurations.Count || mc.Iteration["fail"] != snap.FailedIterationDurations.Count ||
+		mc.Iteration["dropped"] != snap.DroppedIterationCount {
+		return fmt.Sprintf("constant 5/20ms, 1 worker, 60ms bodies, max-duration 170ms, the pool's stop() parked after raising its flag until Do had returned (returned while parked: %v): "+
+			"final result reports %d successful / %d failed / %d dropped (body ran %d), after the stop path finished the iteration metric holds success=%d fail=%d dropped=%d",
+			returnedWhileParked, snap.SuccessfulIterationDurations.Count, snap.FailedIterationDurations.Count, snap.DroppedIterationCount, ran.Load(),
+			mc.Iteration["success"], mc.Iteration["fail"], mc.Iteration["dropped"]), ""
+	}
+	return "", ""
+}
+
+func TestRegress_StopDrainVsFinalResult(t *testing.T) {
+	v, inf := probeStopDrain()
+	if inf != "" {
+		t.Fatalf("VERIF-INFRA: %s", inf)
+	}
+	if v == "" {
+		return
+	}
+	if vlib.KnownOpen(knownStopDrain) {
+		vlib.ReportKnown(knownStopDrain)
+		return
+	}
+	t.Fatalf("VERIF-VIOLATION C16: %s", v)
 }
 
 // ---- regressions and hostile constants -------------------------------------------------------
